@@ -505,13 +505,14 @@ Qed.
 From FIM Require Import Model.StoreDisjoint Proofs.IsolationDisjoint.
 
 Theorem clone_same_disjoint d g g2 :
-  EClosed (dget d g) -> EDist (dget d g) ->
+  EClosed (dget d g) -> EDist (dget d g) -> gn (dget d g) <> [] ->
   gn (dget d g2) = [] -> existsb node_id_missing (gn (dget d g)) = false ->
   snd (d_clone d g g2) = Ok RUnit /\
   dget (fst (d_clone d g g2)) g2 =
     mkG (stamp g2 (relabel_nodes (gn (dget d g)) 1)) (map (relabel_edge (gn (dget d g)) 1) (ge (dget d g))).
 Proof.
-  intros Hcl Hdist Hempty Hmiss. unfold d_clone, d_add_graph. rewrite Hempty.
+  intros Hcl Hdist Hsrc Hempty Hmiss. destruct (d_clone_cases d g g2) as [[E0 _]|[_ E0]]; [contradiction|]. rewrite E0.
+  unfold d_add_graph. rewrite Hempty.
   unfold d_extract, relabel. cbn [inodes iedges]. rewrite missing_relabel, Hmiss. cbn [fst snd]. split; [reflexivity|].
   rewrite dget_dput_ctr, dget_dput, N.eqb_refl.
   set (ns := gn (dget d g)). set (NS := stamp g2 (relabel_nodes ns 1)).
@@ -626,7 +627,7 @@ Proof.
   - unfold d_add_graph_direct. cbn [fst]. intro g'. rewrite dget_dput_ctr.
     apply DWf_put; [exact H | now apply closed_fresh_graph | apply EDist_add_all; exact I].
   - unfold d_del_graph. destruct (gn (dget d g)); [exact H|]. apply DWf_put; [exact H | intros a b q [] | exact I].
-  - unfold d_clone. apply Kadd. apply extract_edges_ok_disjoint. apply H.
+  - destruct (d_clone_cases d g g2) as [[_ E]|[_ E]]; rewrite E; [exact H|]. apply Kadd. apply extract_edges_ok_disjoint. apply H.
   - destruct (pg_add_node (dget d g) g (dcounter d g) n c ps) as [G'|] eqn:E; cbn [fst]; [|exact H].
     intro g'. rewrite dget_dput_ctr. apply DWf_put; [exact H | | eapply EDist_pg_add_node; [apply H | exact E]].
     eapply closed_add_node; [| apply H | exact E].
@@ -646,11 +647,11 @@ Proof. intro g. split; [intros a b q [] | exact I]. Qed.
 Theorem clone_same_disjoint_all ops g g2 :
   (forall o, In o ops -> wf_op o = true) ->
   let d := drun ops init_dstore in
-  gn (dget d g2) = [] -> existsb node_id_missing (gn (dget d g)) = false ->
+  gn (dget d g) <> [] -> gn (dget d g2) = [] -> existsb node_id_missing (gn (dget d g)) = false ->
   snd (d_clone d g g2) = Ok RUnit /\
   dget (fst (d_clone d g g2)) g2 =
     mkG (stamp g2 (relabel_nodes (gn (dget d g)) 1)) (map (relabel_edge (gn (dget d g)) 1) (ge (dget d g))).
 Proof.
-  intros Hwf d H1 H2. destruct (DWf_run ops init_dstore DInv_init DWf_init Hwf g) as [A B].
+  intros Hwf d H0 H1 H2. destruct (DWf_run ops init_dstore DInv_init DWf_init Hwf g) as [A B].
   now apply clone_same_disjoint.
 Qed.
